@@ -253,7 +253,16 @@ impl Scn {
     /// The real transformer, initialised as `ExchangeWsStream::init` does: subscription map + REST snapshots.
     fn init_tf(&self) -> Tf {
         let map: Map<Key> = [(self.inst[0].sub_id.clone(), 0u32), (self.inst[1].sub_id.clone(), 1u32)].into_iter().collect();
-        let snaps = [self.inst[0].snapshot.clone(), self.inst[1].snapshot.clone()];
+        // The order of the REST snapshot list is not part of the contract (`init` pairs a snapshot with
+        // its instrument by key; the subscription map iterates in hash order): half of the
+        // configurations hand the snapshots over in subscription order, the other half reversed, so a
+        // positional pairing cannot go unnoticed whatever the hash order happens to be.
+        let reversed = (self.cfg.inst[0].cuts as u32 + self.cfg.inst[0].snap as u32) % 2 == 1;
+        let snaps = if reversed {
+            [self.inst[1].snapshot.clone(), self.inst[0].snapshot.clone()]
+        } else {
+            [self.inst[0].snapshot.clone(), self.inst[1].snapshot.clone()]
+        };
         let (tx, _rx) = tokio::sync::mpsc::unbounded_channel();
         if self.cfg.futures {
             Tf::Fut(futures::executor::block_on(BinanceFuturesUsdOrderBooksL2Transformer::<Key>::init(map, &snaps, tx)).expect("transformer init"))
